@@ -4,6 +4,7 @@ import ast
 from ..core.program import norm, own_nodes
 from ..core.world import world
 from ..rules import generic as G
+from ..rules import extra as X
 
 EXPLANATION = (
     "Static analysis of Part._time_interpolator and the five map properties — a deliberately thin slice, stated plainly: "
@@ -123,6 +124,7 @@ def run(ctx):
     nd = [norm(n) for n in own_nodes(ti.node) if isinstance(n, (ast.Assign, ast.AugAssign)) and norm(n.targets[0] if isinstance(n, ast.Assign) else n.target) == "normal_dur"]
     ctx.check(set(nd) == {"normal_dur = ts.beats", "normal_dur *= 4 / ts.beat_type", "normal_dur = ts.musical_beats"}, "PICKUP", "normal duration in the map's unit",
               func=ti, construct="pickup-normal-duration", msg=f"normal_dur definitions: {nd}")
+    X.rule_pickup_source(ctx)
     # ---- READSET
     ctx.rule("READSET", "the interpolator reads the quarter table, the time signatures, first_point, last_point and the first measure")
     src = norm(ti.node)
